@@ -149,7 +149,7 @@ def run(ctx):
             ctx.cov["design_step_detects_original_" + inv] = bool(r["violated"])
             if not r["violated"]:
                 raise vlib.Infra("sensitivity: the model of the indexer as originally coded no longer violates (%s)" % cfg)
-    fails = binding_tv(ctx, ctx.pick(150, 1500), ctx.pick(30, 40))
+    fails = binding_tv(ctx, ctx.pick(60, 1200), ctx.pick(30, 40))
     vlib.report_failures(ctx, fails, describe)
     ctx.cov["rule"] = ("tv: seeded histories of 30/40 calls on the real Indexer (pebble under .work): window 1-8, 0-2 txs per "
                        "block, Notify of the next height / a height 2..w+3 ahead (two thirds of the histories) / the latest "
